@@ -29,12 +29,15 @@ where
     }
 
     fn map2_to_curve(p1: &PtT::Base, p2: &PtT::Base) -> PtT {
-        let mut p = {
-            let mut tmp = PtT::osswu_map(p1);
-            tmp.add_assign(&PtT::osswu_map(p2));
-            tmp
-        };
+        // The two SSWU images live on the isogenous curve, whose `a` coefficient is
+        // non-zero, so they must not be added with the target curve's group law
+        // (its doubling formula assumes a = 0 and is wrong when the images coincide).
+        // Map each image through the isogeny first and add on the target curve.
+        let mut p = PtT::osswu_map(p1);
         p.isogeny_map();
+        let mut q = PtT::osswu_map(p2);
+        q.isogeny_map();
+        p.add_assign(&q);
         p.clear_h();
         debug_assert!(p.into_affine().in_subgroup());
         p
